@@ -391,4 +391,151 @@ def c19(driver):
     return mon
 
 
-REGISTRY = {'c01': c01, 'c03': c03, 'c06': c06, 'c08': c08, 'c19': c19}
+def c15(driver):
+    """reset never silently discards manual work and only touches its own
+    pull request.  Ground truth: manual commits are those the harness made
+    (message 'manual fix on ...')."""
+    def mon(w, pre, ev, obs, post):
+        if ev[0] != 'seq' or ev[1][0] != 'comment' or \
+                'reset' not in ev[1][3]:
+            if ev[0] == 'eval_pr' and ev[1] == 1:
+                return after_reset(w, pre, ev, obs, post)
+            return [], {}
+        force = 'force_reset' in ev[1][3]
+        status = obs.get('status')
+        stats = {'c15_commands': 1, 'c15_' + str(status): 1}
+        out = []
+        h0, h1 = heads(pre), heads(post)
+        pr1 = [p for p in pre['prs'] if p['id'] == 1][0]
+        src = pr1['src']
+        mine = {b for b in h0 if wref_parts(b) and wref_parts(b)[1] == src}
+        manual = []
+        for b in sorted(mine):
+            ver = wref_parts(b)[0]
+            dst = [d for d in dests(pre) if d.split('/', 1)[1] == ver]
+            if not dst:
+                continue
+            log = w.git('log', '--format=%H %s', h0[b], '^' + h0[dst[0]])
+            for line in log.splitlines():
+                sha, _, subject = line.partition(' ')
+                if subject.startswith('manual fix on'):
+                    manual.append((b, sha[:10]))
+        if manual:
+            stats['c15_with_manual_work'] = 1
+        gone = set(h0) - set(h1)
+        changed = {b for b in h1 if b in h0 and h0[b] != h1[b]} | \
+            (set(h1) - set(h0))
+        before = {p['id']: p for p in pre['prs']}
+        declined = {p['id'] for p in post['prs'] if p['id'] in before and
+                    before[p['id']]['state'] == 'OPEN' and
+                    p['state'] == 'DECLINED'}
+        other_pr_changes = [p['id'] for p in post['prs'] if p['id'] in before
+                            and p['id'] not in declined and
+                            {k: v for k, v in p.items()
+                             if k != 'participants'} !=
+                            {k: v for k, v in before[p['id']].items()
+                             if k != 'participants'}]
+        fp_base = 'history:%s' % ([e[0] if e[0] != 'seq' else 'merge_pr2'
+                                   for e in driver_history(w, driver)],)
+        if not force and manual and status != 'LossyResetWarning' and (
+                gone or status == 'ResetComplete'):
+            # classify: was every lost commit made on a commit of the source
+            # branch or of the destination (integration branch had been
+            # fast-forwarded, so nothing in the graph tells it is manual)?
+            ff = True
+            lost = {sha for _, sha in manual}
+            for b, sha in manual:
+                # follow first parents through other manual commits down to
+                # the commit the integration branch pointed to
+                cur = sha
+                for _ in range(10):
+                    ps = w.git('rev-list', '--parents', '-n', '1',
+                               cur).split()
+                    if len(ps) != 2:
+                        ff = False
+                        break
+                    cur = ps[1]
+                    subj = w.git('log', '-1', '--format=%s', cur)
+                    if not subj.startswith('manual fix on'):
+                        break
+                author = w.git('log', '-1', '--format=%an', cur)
+                if author == ROBOT:
+                    ff = False   # made on a robot merge commit: detectable
+            v = {'property': 'C15', 'msg':
+                 '`reset` ended %s although integration branches hold '
+                 'manual commits %s; deleted %s' % (
+                     status, manual, sorted(gone))}
+            if ff:
+                v['fingerprint'] = \
+                    'manual-commit-on-fast-forwarded-integration-branch'
+            out.append(v)
+        elif False:
+            out.append({'property': 'C15', 'msg':
+                        '`reset` ended %s although integration branches hold '
+                        'manual commits %s; deleted %s' % (
+                            status, manual, sorted(gone))})
+        if status == 'LossyResetWarning':
+            if gone or changed or declined or other_pr_changes:
+                out.append({'property': 'C15', 'msg':
+                            'reset refused (LossyResetWarning) but deleted '
+                            '%s, changed %s, declined %s' % (
+                                sorted(gone), sorted(changed),
+                                sorted(declined))})
+        elif status == 'ResetComplete':
+            expect_decl = {p['id'] for p in pre['prs']
+                           if p['author'] == ROBOT and p['state'] == 'OPEN'
+                           and p['src'] in mine}
+            if gone != mine or changed:
+                out.append({'property': 'C15', 'msg':
+                            '%s deleted %s and changed %s; the integration '
+                            'branches of the pull request are %s' % (
+                                ev[1][3], sorted(gone), sorted(changed),
+                                sorted(mine))})
+            if declined != expect_decl or other_pr_changes:
+                out.append({'property': 'C15', 'msg':
+                            '%s declined %s (expected %s), other pull '
+                            'requests changed: %s' % (
+                                ev[1][3], sorted(declined),
+                                sorted(expect_decl), other_pr_changes)})
+        elif gone or changed or declined or other_pr_changes:
+            out.append({'property': 'C15', 'msg':
+                        'command %s ended with status %s and deleted %s, '
+                        'changed %s, declined %s' % (
+                            ev[1][3], status, sorted(gone), sorted(changed),
+                            sorted(declined))})
+        else:
+            stats['c15_command_not_executed'] = 1
+        return out, stats
+
+    def after_reset(w, pre, ev, obs, post):
+        """The evaluation after a completed reset rebuilds the integration
+        branches (when there is still something to merge)."""
+        pr1c = [c for c in pre['comments'] if c[0] == 1]
+        if not pr1c or 'Reset complete' not in pr1c[-1][2]:
+            return [], {}
+        pr1 = [p for p in post['prs'] if p['id'] == 1][0]
+        h1 = heads(post)
+        if pr1['state'] != 'OPEN' or pr1['src'] not in h1:
+            return [], {}
+        status = obs.get('status')
+        if status in ('NothingToDo', 'Conflict', 'BranchHistoryMismatch'):
+            return [], {'c15_rebuild_not_applicable': 1}
+        from .faults import targets_of
+        T = targets_of(pr1['dst'], list(dests(post)))
+        missing = [t for t in T[1:] if 'w/%s/%s' % (
+            t.split('/', 1)[1], pr1['src']) not in h1]
+        if missing:
+            return [{'property': 'C15', 'msg':
+                     'after a completed reset the next evaluation (%s) did '
+                     'not rebuild integration branches for %s' % (
+                         status, missing)}], {}
+        return [], {'c15_rebuilt': 1}
+    return mon
+
+
+def driver_history(w, driver):
+    return []
+
+
+REGISTRY = {'c01': c01, 'c03': c03, 'c06': c06, 'c08': c08, 'c19': c19,
+            'c15': c15}
